@@ -64,6 +64,7 @@ class Ob:
     bounded: bool = False
     notes: str = ''
     functions_under_contract: Tuple[str, ...] = ()
+    abstract: Tuple[str, ...] = ()      # callees replaced by the purity contract (regex on mangled names)
 
 
 @dataclass
@@ -206,7 +207,9 @@ def prepare_group(args):
     for ob in obs:
         try:
             roots = [w.name for w in ob.wrappers]
-            ctext, info = ll2c.emit_closure(mod, roots, srcroot=REPO.rstrip('/') + '/')
+            ctext, info = ll2c.emit_closure(mod, roots, srcroot=REPO.rstrip('/') + '/', abstract=ob.abstract)
+            if ob.abstract and not info['abstracted']:
+                out[ob.id] = ('infra', 'abstraction pattern %r matched no function in the closure' % (ob.abstract,)); continue
             if info['global_stores']:
                 out[ob.id] = ('infra', 'frame: closure stores to globals %r' % (info['global_stores'][:3],)); continue
             ctext = ctext.replace('__CPROVER_assert(', '__CPROVER_assert(!ll2c_ub_on || ')
@@ -216,8 +219,14 @@ def prepare_group(args):
             open(os.path.join(d, 'h.c'), 'w').write(harness_text(ob, 'closure.c', ob.body))
             if ob.twin:
                 open(os.path.join(d, 'twin.c'), 'w').write(harness_text(ob, 'closure.c', ob.twin))
+            if ob.abstract:
+                # concrete variant (no callee replaced): used to obtain a real counterexample when the modular proof fails
+                ctext2, info2 = ll2c.emit_closure(mod, roots, srcroot=REPO.rstrip('/') + '/')
+                ctext2 = 'extern _Bool ll2c_ub_on;\n' + ctext2.replace('__CPROVER_assert(', '__CPROVER_assert(!ll2c_ub_on || ')
+                open(os.path.join(d, 'closure_concrete.c'), 'w').write(ctext2)
+                open(os.path.join(d, 'hc.c'), 'w').write(harness_text(ob, 'closure_concrete.c', ob.body))
             out[ob.id] = ('ok', {'dir': d, 'functions': info['functions'], 'stubs': info['stubs'],
-                                 'libm_models': info['libm_models'], 'n_ub_asserts': len(info['assert_sites'])})
+                                 'libm_models': info['libm_models'], 'n_ub_asserts': len(info['assert_sites']), 'abstracted': info['abstracted']})
         except ll2c.Unsupported as e:
             out[ob.id] = ('infra', 'll2c: %s' % e)
     return out
@@ -434,7 +443,6 @@ def decide(d, ob, src='h.c', budget=None, log=None):
 
     strategies = [lambda: strat_sat('minisat'), lambda: strat_sat('cadical')]
     if use_ib: strategies.append(strat_ib)
-    if ob.fp: strategies.append(lambda: strat_sat('z3'))
     answer = None
     with cf.ThreadPoolExecutor(len(strategies)) as ex:
         futs = [ex.submit(f) for f in strategies]
@@ -468,6 +476,20 @@ def solve_ob(args):
         r.status = res['status']; r.backend = res['backend']; r.seconds = res['seconds']
         r.failed_props = res['failed']; r.inputs = res['inputs']; r.canary = res['canary']; r.n_props = res['n']
         r.detail = '; '.join(res['notes'])
+        if r.status == 'failed' and ob.abstract:
+            # the modular proof (callee replaced by its contract) failed: look for a concrete counterexample on the full code
+            rc = decide(d, ob, src='hc.c', budget=max(ob.budget, 240))
+            if rc['status'] == 'proved':
+                r.status = 'proved'; r.backend = rc['backend'] + ' (concrete; modular proof failed)'; r.failed_props = []
+                r.canary = rc['canary']; r.n_props = rc['n']; r.inputs = None
+            elif rc['status'] == 'failed':
+                r.backend = rc['backend'] + ' (concrete counterexample after modular proof failed)'
+                r.failed_props = rc['failed']; r.inputs = rc['inputs']
+            else:
+                r.detail += ' modular proof failed (%s); no concrete counterexample within budget' % '; '.join(r.failed_props[:2])
+                r.inputs = None
+                r.log = 'modular obligation failed under the callee contract; concrete search undecided'
+            r.seconds += rc['seconds']
         if do_twin and ob.twin and r.status == 'proved':
             tw = decide(d, ob, src='twin.c')
             r.twin_status = tw['status']
